@@ -1,3 +1,4 @@
+import MiniconfVerif.Lemmas.GenTieHelpers
 import MiniconfVerif.Lemmas.PcRT
 import MiniconfVerif.Lemmas.WalkFrame
 
@@ -82,5 +83,35 @@ example : pcEnc (.int false 64) (.int (2^64 - 1)) = some [255,255,255,255,255,25
 example : pcFits (.int true 64) (.int (-(2^63))) = true := by decide +kernel
 example : fits (.opt (.struct [("a", .bool), ("s", .string (some 4))])) (.some (.struct [.bool true, .str "hé".toList])) = true := by
   decide +kernel
+
+open MiniconfVerif.Gen MiniconfVerif.Gen.Core MiniconfVerif.Gen.Helpers MiniconfVerif.GenTie in
+/-- **The helpers as translated from json.rs / postcard.rs** (`Gen/Helpers.lean`; the third-party (de)serializer is
+abstract: constructing it, its `end()` / `finalize()` and the tree's own by-key function are parameters) are the model's
+glue (`Model/Helpers.lean`, which the value-level driver prints through): `set_by_key` runs the by-key write FIRST and
+returns its error as it is; only after a successful write it asks the deserializer for trailing data, whose complaint is
+`Error::Finalization` — **the tree is what the write left in either case** (the documented exception of C01); on success
+the deserializer's count is returned.  `get_by_key` returns the serializer's byte count after a successful walk and the
+walk's error otherwise (postcard: the flavor's `finalize()` may fail with `Error::Finalization`).  `json::set` / `json::get`
+are checked to be these functions at `Path::<_, '/'>::from(path)`. -/
+theorem source_helpers_are_model {T K Data De R Ser F O : Type} (count : R → Nat) (countO : O → Nat)
+    (deserByKey : T → K → De → Except (Error Unit) Nat × (T × De)) (deEnd : De → Except Unit R)
+    (serByKey : T → K → Ser → Except (Error Unit) Nat × Ser) (serEnd : Ser → Nat)
+    (pserByKey : T → K → F → Except (Error Unit) Nat × F) (serFinalize : F → Except Unit O)
+    (tree : T) (keys : K) (de0 : De) (ser0 : Ser) (f0 : F) (data : Data)
+    (hde : ∀ d, (deserByKey tree keys de0).1 ≠ .error (.Finalization d))
+    (hser : ∀ d, (serByKey tree keys ser0).1 ≠ .error (.Finalization d))
+    (hpser : ∀ d, (pserByKey tree keys f0).1 ≠ .error (.Finalization d)) :
+    (∀ out, (out = json.set_by_key (fun (_ : Data) _ => de0) deserByKey deEnd tree keys data ∨
+             out = postcard.set_by_key (fun (_ : Data) => de0) deserByKey deEnd tree keys data) →
+      ∃ r, out = .val (r, (deserByKey tree keys de0).2.1) ∧
+        helperOfGen count r =
+          setThenEnd (resOfGen (deserByKey tree keys de0).1) (endOfGen count (deEnd (deserByKey tree keys de0).2.2))) ∧
+    helperOfGen id (json.get_by_key (fun (_ : Data) => ser0) serByKey serEnd tree keys data) =
+      getThenEnd (resOfGen (serByKey tree keys ser0).1) (serEnd (serByKey tree keys ser0).2) ∧
+    helperOfGen countO (postcard.get_by_key pserByKey serFinalize tree keys f0) =
+      setThenEnd (resOfGen (pserByKey tree keys f0).1) (endOfGen countO (serFinalize (pserByKey tree keys f0).2)) :=
+  ⟨set_by_key_tie count deserByKey deEnd tree keys de0 data hde,
+   json_get_by_key_tie serByKey serEnd tree keys ser0 data hser,
+   postcard_get_by_key_tie countO pserByKey serFinalize tree keys f0 hpser⟩
 
 end MiniconfVerif.C05
